@@ -25,9 +25,9 @@ SIDES = ('onesided', 'twosided', 'centerdc')
 def bounds(tier):
     if tier == 'quick':
         return {'NFFT': '2..9', 'depth': 3, 'events': 'sides in {onesided (real only), twosided, centerdc, default}',
-                'vectors': 'e_i, e_i+e_j, ones, all-distinct', 'helpers_len': '2..9', 'arma2psd_NFFT': '3..9'}
+                'vectors': 'e_i, e_i+e_j, ones, all-distinct', 'helpers_len': '2..9', 'arma2psd_NFFT': '3..9', 'estimator_objects': 'pburg, Periodogram x real/complex x NFFT 12..15'}
     return {'NFFT': '2..17', 'depth': 5, 'events': 'sides in {onesided (real only), twosided, centerdc, default}',
-            'vectors': 'e_i, e_i+e_j, ones, all-distinct', 'helpers_len': '2..17', 'arma2psd_NFFT': '3..17'}
+            'vectors': 'e_i, e_i+e_j, ones, all-distinct', 'helpers_len': '2..17', 'arma2psd_NFFT': '3..17', 'estimator_objects': 'pburg, Periodogram x real/complex x NFFT 12..33'}
 
 
 def expected_clauses(tier):
@@ -41,6 +41,10 @@ def shards(tier):
     for NFFT in range(2, hi + 1):
         for dt in ('real', 'complex'):
             out.append(('bfs', dt, NFFT, depth))
+    for NFFT in range(12, (15 if tier == 'quick' else 33) + 1):
+        for dt in ('real', 'complex'):
+            for cls in ('pburg', 'Periodogram'):
+                out.append(('bfs_obj', dt, NFFT, depth, cls))
     for L in range(2, hi + 1):
         out.append(('helpers', L))
     for NFFT in range(3, hi + 1):
@@ -73,6 +77,19 @@ def build(start, hist):
     """Fresh Spectrum object with the stored PSD, then replay the sides assignments."""
     from spectrum.psd import Spectrum
     dt, NFFT, v0 = start['dtype'], start['NFFT'], start['v0']
+    if start.get('cls'):
+        import spectrum
+        from .. import alphabet as A
+        N = 12
+        data = (A.weyl(N, 3) + np.cos(0.7 * np.arange(N))) if dt == 'real' else A.weylc(N, 3)
+        if start['cls'] == 'pburg':
+            s = spectrum.pburg(data, 3, NFFT=NFFT)
+        else:
+            s = spectrum.Periodogram(data, NFFT=NFFT)
+        s.psd
+        for ev in hist:
+            s.sides = ev
+        return s
     if dt == 'real':
         data = np.arange(1.0, NFFT + 1.0)
     else:
@@ -105,6 +122,18 @@ def run_shard(desc, R, tier):
             R.extra['bfs_runs'] += 1
             R.extra['bfs_fixpoints'] += 1 if st['fixpoint'] else 0
             R.extra['bfs_max_depth_completed'] = max(R.extra['bfs_max_depth_completed'], st['depth_completed'])
+    elif desc[0] == 'bfs_obj':
+        _, dt, NFFT, depth, cls = desc
+        start = {'dtype': dt, 'NFFT': NFFT, 'v0': None, 'cls': cls}
+        start['v0'] = np.array(build(start, ()).psd, dtype=float)
+        st = bfs.explore(start, menu, build, depth, R,
+                         on_state=lambda s, h: check_state(s, h, R),
+                         on_exception=lambda s, h, e: on_exc(s, h, e, R))
+        R.calls(st['transitions'])
+        R.extra['bfs_states'] += st['states']
+        R.extra['bfs_transitions'] += st['transitions']
+        R.extra['bfs_runs'] += 1
+        R.extra['bfs_fixpoints'] += 1 if st['fixpoint'] else 0
     elif desc[0] == 'helpers':
         L = desc[1]
         for v in vectors(L):
@@ -132,13 +161,13 @@ def _feats(start, hist, **kw):
 
 
 def on_exc(start, hist, e, R):
-    pt = {'kind': 'bfs', 'dtype': start['dtype'], 'NFFT': start['NFFT'], 'v0': start['v0'], 'history': list(hist)}
+    pt = {'kind': 'bfs', 'dtype': start['dtype'], 'NFFT': start['NFFT'], 'v0': start['v0'], 'history': list(hist), 'cls': start.get('cls')}
     R.viol('no_exception', _feats(start, hist, to=hist[-1], exc=type(e).__name__), pt, repr(e), None,
            'assigning sides raised')
 
 
 def check_state(start, hist, R):
-    pt = {'kind': 'bfs', 'dtype': start['dtype'], 'NFFT': start['NFFT'], 'v0': start['v0'], 'history': list(hist)}
+    pt = {'kind': 'bfs', 'dtype': start['dtype'], 'NFFT': start['NFFT'], 'v0': start['v0'], 'history': list(hist), 'cls': start.get('cls')}
     eval_point(pt, R)
 
 
@@ -149,7 +178,7 @@ def _vars_snapshot(obj):
 def eval_point(pt, R):
     kind = pt['kind']
     if kind == 'bfs':
-        start = {'dtype': pt['dtype'], 'NFFT': int(pt['NFFT']), 'v0': np.asarray(pt['v0'], dtype=float)}
+        start = {'dtype': pt['dtype'], 'NFFT': int(pt['NFFT']), 'v0': np.asarray(pt['v0'], dtype=float), 'cls': pt.get('cls')}
         hist = tuple(pt['history'])
         NFFT = start['NFFT']
         dflt = default_sides(start['dtype'])
